@@ -21,6 +21,8 @@ import Hy.Drv.UdpAcl
 import Hy.Drv.UdpSession
 import Hy.Drv.Ring
 import Hy.Drv.Bbr
+import Hy.Drv.C18
+import Hy.Drv.C18Mux
 
 open Hy.Drv
 
@@ -64,4 +66,6 @@ def main (args : List String) : IO UInt32 := do
   | ["ring"] => loopState stdin stdout Ring.ringStep Ring.ringInit; return 0
   | ["bbr"] => loopState stdin stdout Bbr.step Bbr.init; return 0
   | ["pnq"] => loopState stdin stdout Ring.pnqStep Ring.pnqInit; return 0
+  | ["c18"] => loopPure stdin stdout C18.step; return 0
+  | ["c18mux"] => loopPure stdin stdout C18Mux.step; return 0
   | _ => IO.eprintln "usage: hydrv <component>"; return 2
